@@ -24,3 +24,10 @@ package rapi
 //@   ensures [no-other-routes] delta(RouteOtherGet) == 0 && delta(RouteOtherPost) == 0
 //@   ensures [restore-routes-iff-snapshot-mode] delta(InitTypeLoaded) == 1 && (delta(InitTypeCaching) == 1 ==> delta(RouteRestoreNext) == 1 && delta(RouteRestoreError) == 1) && (delta(InitTypeCaching) == 0 ==> delta(RouteRestoreNext) == 0 && delta(RouteRestoreError) == 0)
 //@   ensures [id-validated-on-response-and-error] delta(ValidatorWraps) == 2
+
+// C16 ("the address the API server really listens on", for every address the command line accepts): main validates the address
+// with net.SplitHostPort, which accepts "[::1]:9001" and hands on host "::1"; the listen address is built so that it splits
+// back into that host and port (a plain "%s:%d" gives "::1:9001", which net.Listen rejects: the emulator panics at start)
+//@ event NetListen = call net.Listen
+//@ func (*Server).Listen
+//@   ensures [C16: the-listen-address-splits-back-into-host-and-port] delta(NetListen) == 1 && hostOf(lastarg(NetListen, 1)) == old(s.host) && portOf(lastarg(NetListen, 1)) == itoa(old(s.port)) && lastarg(NetListen, 0) == "tcp"
